@@ -11,10 +11,12 @@ EXTENDS Integers, Sequences, FiniteSets, TLC
 CONSTANTS Conns,       \* connections (simple server) or independent carriers (HTTP requests / NATS messages)
           MaxReq,      \* requests per connection
           ServerKind   \* "simple" | "message" (HTTP, NATS)
-Kinds == {"ok", "badargs", "unknown", "declared", "undeclared", "appex", "oneway", "onewayfail"}
+\* "overlimit": a successful call whose caller accepts only a reply smaller than the one it gets (HTTP: x-frugal-payload-limit)
+Kinds == {"ok", "overlimit", "badargs", "unknown", "declared", "undeclared", "appex", "oneway", "onewayfail"}
 TwoWay(k) == k \notin {"oneway", "onewayfail"}
 \* what the processor writes for a request of kind k: <<message type, content>>
 ReplyOf(k) == CASE k = "ok"         -> <<"REPLY", "result">>
+                [] k = "overlimit"  -> <<"LIMIT", "refused-or-result">>      \* HTTP: status 413 and no frame; servers without a caller-side limit: the result
                 [] k = "declared"   -> <<"REPLY", "declared-exception">>
                 [] k = "badargs"    -> <<"EXCEPTION", "PROTOCOL_ERROR">>
                 [] k = "unknown"    -> <<"EXCEPTION", "UNKNOWN_METHOD">>
@@ -22,7 +24,7 @@ ReplyOf(k) == CASE k = "ok"         -> <<"REPLY", "result">>
                 [] k = "appex"      -> <<"EXCEPTION", "handler-type">>
                 [] k = "onewayfail" -> <<"EXCEPTION", "INTERNAL_ERROR">>   \* the generated oneway function reports its handler's failure
                 [] OTHER            -> <<>>                                \* a successful oneway call produces no reply
-Invokes(k) == k \in {"ok", "declared", "undeclared", "appex", "oneway", "onewayfail"}
+Invokes(k) == k \in {"ok", "overlimit", "declared", "undeclared", "appex", "oneway", "onewayfail"}
 VARIABLES inq,      \* inq[c]: requests not yet read, each [id, kind]
           out,      \* out[c]: replies written, each [id, type, what]
           alive,    \* connection still served
